@@ -41,6 +41,7 @@ class Exec:
         self.flagged = set()    # pids whose cached object is_running() reported as recycled
         self.stale = {}         # pid -> the object found recycled by is_running()
         self.seen_gone_then_recycled = {}
+        self.must_be_fresh = {}  # pid -> cached object whose process an (un-overlapped) iteration saw vanish
         self.viols = []
         self.label = ""
 
@@ -68,8 +69,7 @@ class Exec:
                 ev.append(["isr", s])
         if len(self.gens) < c.max_gens:
             ev.append(["gstart", "none"])
-            if c.thorough:
-                ev.append(["gstart", "np"])
+            ev.append(["gstart", "np"])
         for i in range(len(self.gens)):
             ev.append(["gnext", i])
             ev.append(["gclose", i])
@@ -96,7 +96,7 @@ class Exec:
         lab = k
         if k == "spawn":
             w.tick(1)
-            w.spawn(c.pid[ev[1]], ppid=1, comm=b"p" + ev[1].encode())
+            w.spawn(c.pid[ev[1]], ppid=1, comm={"A": b"Tgid:\t%d" % c.tid, "B": b"Tgid:\t1"}.get(ev[1], b"p" + ev[1].encode()))
         elif k == "exit":
             w.exit(c.pid[ev[1]])
         elif k == "reap":
@@ -111,6 +111,12 @@ class Exec:
                 self.viol("cache_clear-raised", repr(out))
             if self.ref is not None:
                 self.ref = {}
+            for st in self.gens:
+                if st["listed"] is None:
+                    if st["ref0"] is not None:
+                        st["ref0"] = {}          # the generator body has not run yet: it will copy the emptied cache
+                else:
+                    st["overlap"] = True         # what a running iteration writes back after a clear is unspecified
             self.flagged.clear()
             if not self.gens and ps._pmap:
                 self.viol("cache_clear-not-empty", "_pmap still has %r" % sorted(ps._pmap))
@@ -136,7 +142,10 @@ class Exec:
             lab = self.do_full_iter(ev[1])
         elif k == "gstart":
             g = ps.process_iter(attrs=ATTRS[ev[1]])
-            self.gens.append({"g": g, "listed": None, "yielded": [], "attrs": ev[1], "alive_all": None})
+            for st in self.gens:
+                st["overlap"] = True
+            self.gens.append({"g": g, "listed": None, "yielded": [], "attrs": ev[1], "alive_all": None,
+                              "ref0": self.ref, "overlap": bool(self.gens), "objs": {}})
             self.ref = None
         elif k == "gnext":
             lab = self.do_gnext(ev[1])
@@ -146,6 +155,7 @@ class Exec:
             if out[0] != "ok":
                 self.viol("gen-close-raised", repr(out))
             self.ref = None
+            self.gen_done(st)
         else:
             raise AssertionError(ev)
         # processes that left the table are no longer "alive throughout" any running iteration
@@ -156,8 +166,28 @@ class Exec:
         self.label = lab
         self.state_invariants()
 
+    def gen_done(self, st):
+        """a generator that never overlapped another iteration is an iteration like any other: what it yielded (and
+        what it inherited) is the cache the next iteration must start from; what it saw vanish must be dropped"""
+        if st["overlap"] or self.gens:
+            return
+        if st["listed"] is None:
+            self.ref = st["ref0"]          # never started: nothing changed
+            return
+        if st["ref0"] is not None:
+            ref = {pid: o for pid, o in st["ref0"].items() if pid in st["listed"]}
+            ref.update(st["objs"])
+            for pid in st.get("vanished", ()):
+                ref.pop(pid, None)
+            self.ref = ref
+        for pid in st.get("vanished", ()):
+            if pid in self.held:
+                self.must_be_fresh[pid] = self.held[pid][0]
+
     def do_full_iter(self, akey):
         ps, w = self.ps, self.w
+        for st in self.gens:
+            st["overlap"] = True
         listed = self.listed()
         uids = {pid: w.procs[pid].uid for pid in listed}
         pre_reused = set(ps._pids_reused)
@@ -194,6 +224,10 @@ class Exec:
         overlapping = bool(self.gens)
         if not overlapping:
             for p in procs:
+                if self.must_be_fresh.get(p.pid) is p:
+                    self.viol("vanished-entry-not-dropped",
+                              "pid %d: an earlier iteration saw this process vanish, yet the same cached object is yielded again "
+                              "after the pid was recycled" % p.pid)
                 if self.seen_gone_then_recycled.get(p.pid) is p:
                     self.viol("entry-seen-gone-then-pid-recycled-is-never-replaced",
                               "pid %d: process_iter() keeps yielding a cached object whose is_running() is False for a pid that now "
@@ -232,6 +266,7 @@ class Exec:
         # a complete iteration has now acted on every recycling found so far; what an overlapping generator
         # writes back later is outside the statement (Reading: non-overlapping iterations only)
         self.stale.clear()
+        self.must_be_fresh = {}
         return lab
 
     def do_gnext(self, i):
@@ -251,6 +286,8 @@ class Exec:
             if out[1] != "StopIteration":
                 self.viol("gen-raised:%s" % out[1], "next(process_iter) raised %r" % (out,))
             self.gens.pop(i)
+            st["vanished"] = [p for p in sorted(st["listed"]) if p not in st["yielded"] and p not in st["alive_all"]]
+            self.gen_done(st)
             # exhausted: must have covered every pid listed at its start that stayed alive
             miss = [p for p in sorted(st["alive_all"]) if p not in st["yielded"] and p not in st["flagged0"]]
             known = [p for p in sorted(st["alive_all"]) if p not in st["yielded"] and p in st["flagged0"]]
@@ -267,6 +304,12 @@ class Exec:
         if p.pid not in st["listed"]:
             self.viol("gen-extra", "yielded pid %d not listed at generator start %r" % (p.pid, sorted(st["listed"])))
         st["yielded"].append(p.pid)
+        st["objs"][p.pid] = p
+        if st["ref0"] is not None and not st["overlap"] and len(self.gens) == 1:
+            old = st["ref0"].get(p.pid)
+            oh = self.held.get(p.pid)
+            if old is not None and oh is not None and oh[1] == st["uids"].get(p.pid) and p is not old and p.pid not in st["flagged0"]:
+                self.viol("identity-lost", "pid %d stayed listed (same process) but the generator yielded a different object" % p.pid)
         self.check_yield(p, st["attrs"], "gnext")
         return "gnext:ok"
 
@@ -311,7 +354,8 @@ class Exec:
         for st in self.gens:
             g = st["g"]
             fl = g.gi_frame.f_locals if g.gi_frame is not None else {}
-            gens.append({"attrs": st["attrs"], "started": st["listed"] is not None,
+            gens.append({"attrs": st["attrs"], "started": st["listed"] is not None, "ov": st["overlap"],
+                         "ref0": None if st["ref0"] is None else sorted(st["ref0"]),
                          "listed": sorted(st["listed"]) if st["listed"] is not None else None,
                          "alive": sorted(st["alive_all"]) if st["alive_all"] is not None else None,
                          "yielded": st["yielded"],
@@ -321,6 +365,7 @@ class Exec:
         return {"slots": {s: (None if v is None else [v[0], rel[v[1]]]) for s, v in slots.items()},
                 "tid": c.tid in w.tids, "pmap": pm, "held": held, "gens": gens,
                 "reused": sorted(ps._pids_reused), "flagged": sorted(self.flagged),
+                "mbf": {pid: ps._pmap.get(pid) is o for pid, o in sorted(self.must_be_fresh.items())},
                 "sgr": {pid: ps._pmap.get(pid) is o for pid, o in sorted(self.seen_gone_then_recycled.items())},
                 "stale": {pid: [ps._pmap.get(pid) is o, any(fl_pmap_has(st, pid, o) for st in self.gens)] for pid, o in sorted(self.stale.items())},
                 "ref": None if self.ref is None else sorted(self.ref)}
@@ -355,7 +400,7 @@ def f_world(cfg):
     w.spawn(w.mypid, ppid=1, comm=b"caller", start=50)
     for s in ("A", "B", "C"):
         w.tick(1)
-        w.spawn(cfg.pid[s], ppid=1, comm=b"p" + s.encode())
+        w.spawn(cfg.pid[s], ppid=1, comm={"A": b"Tgid:\t%d" % cfg.tid, "B": b"Tgid:\t1"}.get(s, b"p" + s.encode()))
     w.tids[cfg.tid] = w.procs[cfg.pid["A"]]
     return w
 
@@ -452,7 +497,9 @@ def run(ctx):
     global _CFG
     _CFG = Cfg(ctx.seed, ctx.thorough)
     depth = 7 if ctx.thorough else 6
-    roots = [[["spawn", "A"], ["iter", "none"], ["die", "A"], ["spawn", "A"]]]      # a cached entry that stands for a previous owner
+    roots = [[["spawn", "A"], ["iter", "none"], ["die", "A"], ["spawn", "A"]],      # a cached entry that stands for a previous owner
+             # an iteration with attrs under way (pids listed, first one yielded) over a cache that already holds A
+             [["spawn", "A"], ["iter", "np"], ["gstart", "np"], ["gnext", 0]]]
     res = bfs(run_h, depth, ctx, roots=roots)
     nf, flabels, fviols, fsamples = f_part(ctx)
     res["violations"] = res["violations"] + fviols
